@@ -131,6 +131,10 @@ pub struct Sh {
 	checkpoint_model: RefCell<Option<Model>>,
 	step_ix: Cell<usize>,
 	failed_commits: RefCell<Vec<FailedCommit>>,
+	/// a compaction / flush is executing further down the stack (the store has one level
+	/// task and one flush task: such work is never nested inside itself)
+	in_compaction: Cell<u32>,
+	in_flush: Cell<u32>,
 }
 
 pub const SCAN_LO: &[u8] = &[0u8];
@@ -260,6 +264,8 @@ impl Sh {
 			checkpoint_model: RefCell::new(None),
 			step_ix: Cell::new(0),
 			failed_commits: RefCell::new(Vec::new()),
+			in_compaction: Cell::new(0),
+			in_flush: Cell::new(0),
 		})
 	}
 
@@ -643,13 +649,28 @@ impl Sh {
 		match s {
 			Step::Probe => self.probe(&tree),
 			Step::Rotate => self.bg("rotate", tree.verif_rotate().map(|_| false)),
-			Step::FlushOne => self.bg("flush_one", tree.verif_flush_one()),
-			Step::FlushAll => self.bg("flush_all", tree.verif_flush_all().map(|_| true)),
+			Step::FlushOne | Step::FlushAll if self.in_flush.get() > 0 => {}
+			Step::CompactRound | Step::CompactAll if self.in_compaction.get() > 0 => {}
+			Step::FlushOne => {
+				self.in_flush.set(self.in_flush.get() + 1);
+				let r = tree.verif_flush_one();
+				self.in_flush.set(self.in_flush.get() - 1);
+				self.bg("flush_one", r);
+			}
+			Step::FlushAll => {
+				self.in_flush.set(self.in_flush.get() + 1);
+				let r = tree.verif_flush_all().map(|_| true);
+				self.in_flush.set(self.in_flush.get() - 1);
+				self.bg("flush_all", r);
+			}
 			Step::CompactRound => {
+				self.in_compaction.set(self.in_compaction.get() + 1);
 				let r = tree.verif_compact_round();
+				self.in_compaction.set(self.in_compaction.get() - 1);
 				self.bg("compact", r);
 			}
 			Step::CompactAll => {
+				self.in_compaction.set(self.in_compaction.get() + 1);
 				for _ in 0..16 {
 					match tree.verif_compact_round() {
 						Ok(true) => {
@@ -663,6 +684,7 @@ impl Sh {
 						}
 					}
 				}
+				self.in_compaction.set(self.in_compaction.get() - 1);
 			}
 			Step::FlushWal { sync } => {
 				let r = tree.flush_wal(*sync);
@@ -816,6 +838,7 @@ impl Sh {
 	// ---------- probe ----------
 	pub fn probe(&self, tree: &Tree) {
 		self.stats.borrow_mut().probes += 1;
+		let floor = self.horizon_floor();
 		let txn = match tree.begin_with_mode(Mode::ReadOnly) {
 			Ok(t) => t,
 			Err(e) => {
@@ -824,7 +847,7 @@ impl Sh {
 			}
 		};
 		let h = txn.verif_start_seq();
-		self.check_horizon(h, "probe");
+		self.check_horizon(h, "probe", floor);
 		if self.violated() {
 			return;
 		}
@@ -832,9 +855,15 @@ impl Sh {
 		self.compare_full(&txn, &tm, "probe");
 	}
 
-	fn check_horizon(&self, h: u64, who: &str) {
+	/// `(max acknowledged sequence, max horizon handed out)` right now — to be captured when
+	/// a begin is *invoked*: work nested inside the begin's own window is concurrent with it.
+	fn horizon_floor(&self) -> (u64, u64) {
+		(self.model.borrow().max_acked_seq(), self.max_horizon.get())
+	}
+
+	fn check_horizon(&self, h: u64, who: &str, floor: (u64, u64)) {
 		let m = self.model.borrow();
-		let acked = m.max_acked_seq();
+		let acked = floor.0;
 		if h < acked {
 			self.fail(
 				"horizon_behind_ack",
@@ -849,11 +878,13 @@ impl Sh {
 			);
 			return;
 		}
-		if h < self.max_horizon.get() {
-			self.fail("horizon_backwards", format!("{}: horizon {} after a horizon {} was handed out", who, h, self.max_horizon.get()));
+		if h < floor.1 {
+			self.fail("horizon_backwards", format!("{}: horizon {} after a horizon {} was handed out", who, h, floor.1));
 			return;
 		}
-		self.max_horizon.set(h);
+		if h > self.max_horizon.get() {
+			self.max_horizon.set(h);
+		}
 	}
 
 	/// gets of every key + forward and backward full scans against the model.
@@ -960,10 +991,11 @@ impl Sh {
 				act.cursor = None;
 				act.txn = None;
 				act.tm = None;
+				let floor = self.horizon_floor();
 				match tree.begin_with_mode(to_mode(*mode)) {
 					Ok(t) => {
 						let h = t.verif_start_seq();
-						self.check_horizon(h, &format!("actor {} begin", ai));
+						self.check_horizon(h, &format!("actor {} begin", ai), floor);
 						let id = self.txn_counter.get() + 1;
 						self.txn_counter.set(id);
 						act.txn_id = id;
